@@ -10,9 +10,10 @@ git -C /repo worktree remove --force "$WT" 2>/dev/null; rm -rf "$WT"
 git -C /repo worktree add --detach "$WT" HEAD >/dev/null 2>&1 || exit 2
 # configure, Makefile.in etc. are generated (untracked) files of /repo: copy them, never the objects
 rsync -a --ignore-existing /repo/ "$WT"/ --exclude .git --exclude '*.o' --exclude '*.lo' --exclude '.libs' --exclude '*.la' --exclude '_build' --exclude '*.log' --exclude '*.trs'
+HEADREV=$(git -C "$WT" rev-parse HEAD)
 cd "$WT" || exit 2
 ( ./configure -q >conf.log 2>&1 && make -j16 >make.log 2>&1 && make -k -j8 check >check.log 2>&1 ); rc=$?
-{ echo "HEAD $(git -C /repo rev-parse HEAD)"; echo "make -k check exit $rc"; grep -E '^(# |PASS|FAIL|XFAIL|SKIP|ERROR)' check.log; } > "$OUT"
+{ echo "HEAD $HEADREV"; echo "make -k check exit $rc"; grep -E '^(# |PASS|FAIL|XFAIL|SKIP|ERROR)' check.log; } > "$OUT"
 cd /; git -C /repo worktree remove --force "$WT"; rm -rf "$WT"; git -C /repo worktree prune
 cat "$OUT" | tail -15
 exit $rc
